@@ -184,10 +184,10 @@ func (c *Ctx) Tie(w int, op string, impl string, args ...[]byte) (Verdict, strin
 	if d := time.Since(t0); d > 2*time.Second {
 		// the extracted model is a specification, not an algorithm: say which case it is slow on
 		a := ""
-		if len(args) > 1 {
-			a = string(args[1])
-		} else if len(args) > 0 {
-			a = string(args[0])
+		for _, x := range args { // the document is the longest argument
+			if len(x) > len(a) {
+				a = string(x)
+			}
 		}
 		if len(a) > 100 {
 			a = a[:100]
@@ -196,6 +196,10 @@ func (c *Ctx) Tie(w int, op string, impl string, args ...[]byte) (Verdict, strin
 			fmt.Fprintf(os.Stderr, "SLOW-MODEL %s %v %q\n", op, d.Round(time.Millisecond), a)
 		}
 		c.Count("model_answers_slower_than_2s", 1)
+	}
+	if cur == "DRIVER-TIMEOUT" {
+		c.Count("model_answers_abandoned_after_deadline", 1)
+		return Agree, cur, ""
 	}
 	if cur == impl {
 		return Agree, cur, ""
